@@ -4,7 +4,11 @@ import (
 	"context"
 	"encoding/json"
 	"fmt"
+	pcfake "github.com/pingcap/advanced-statefulset/client/client/clientset/versioned/fake"
 	apierrors "k8s.io/apimachinery/pkg/api/errors"
+	"k8s.io/apimachinery/pkg/watch"
+	kubefake "k8s.io/client-go/kubernetes/fake"
+	ktesting "k8s.io/client-go/testing"
 	"math"
 	"math/rand"
 	"reflect"
@@ -500,6 +504,24 @@ func runC19(ctx *Ctx) *Result {
 				}
 			}
 		}
+		// ApplyStatus through the hijack client: typed result, status stored, spec untouched
+		{
+			specBefore := jsonOf(srv.Get(simapi.Sets, "ns", "web").(*asv1.StatefulSet).Spec)
+			ac := appsapplyv1.StatefulSet("web", "ns").WithStatus(appsapplyv1.StatefulSetStatus().WithReplicas(int32(seed % 9)).WithCurrentRevision("rev-applied"))
+			as, err := hc.AppsV1().StatefulSets("ns").ApplyStatus(bg, ac, metav1.ApplyOptions{FieldManager: "verif"})
+			if err != nil {
+				add(i, "hijack-applystatus-failed", err.Error(), nil)
+			} else if as == nil {
+				add(i, "nil-object-without-error", "a successful ApplyStatus through the hijack client returned no object", nil)
+			} else {
+				res.Stats["hijack_apply_status"]++
+				stored := srv.Get(simapi.Sets, "ns", "web").(*asv1.StatefulSet)
+				if as.APIVersion != "apps/v1" || as.Status.Replicas != int32(seed%9) || as.Status.CurrentRevision != "rev-applied" || stored.Status.Replicas != int32(seed%9) || jsonOf(stored.Spec) != specBefore {
+					add(i, "apply-through-hijack", fmt.Sprintf("ApplyStatus through the hijack client: typed %s, returned status.replicas=%d currentRevision=%q, stored status.replicas=%d, spec changed=%v", as.APIVersion, as.Status.Replicas, as.Status.CurrentRevision, stored.Status.Replicas, jsonOf(stored.Spec) != specBefore), nil)
+				}
+				again.ResourceVersion = as.ResourceVersion
+			}
+		}
 		// status through UpdateStatus
 		st := again.DeepCopy()
 		st.Status = *x.Status.DeepCopy()
@@ -551,6 +573,23 @@ func runC19(ctx *Ctx) *Result {
 					ac := appsapplyv1.StatefulSet("applied2", "ns").WithSpec(appsapplyv1.StatefulSetSpec().WithReplicas(1))
 					o, err := hc.AppsV1().StatefulSets("ns").Apply(bg, ac, metav1.ApplyOptions{FieldManager: "verif"})
 					return o, err
+				}},
+				{"ApplyStatus", func() (interface{}, error) {
+					ac := appsapplyv1.StatefulSet("web", "ns").WithStatus(appsapplyv1.StatefulSetStatus().WithReplicas(1))
+					o, err := hc.AppsV1().StatefulSets("ns").ApplyStatus(bg, ac, metav1.ApplyOptions{FieldManager: "verif"})
+					return o, err
+				}},
+				{"Watch", func() (interface{}, error) {
+					// (the watch reactor of a separate fake clientset refuses to open the watch)
+					pc := pcfake.NewSimpleClientset()
+					pc.PrependWatchReactor("statefulsets", func(a ktesting.Action) (bool, watch.Interface, error) {
+						return true, nil, apierrors.NewInternalError(fmt.Errorf("injected: watch refused"))
+					})
+					wi, err := helper.NewHijackClient(kubefake.NewSimpleClientset(), pc).AppsV1().StatefulSets("ns").Watch(bg, metav1.ListOptions{})
+					if err == nil && wi != nil {
+						wi.Stop()
+					}
+					return wi, err
 				}},
 			}
 			for vi, v := range verbs {
@@ -691,5 +730,5 @@ func init() {
 		Rule:   "apps/v1 StatefulSets generated by gofuzz with apimachinery's meta fuzzer functions plus custom functions (Quantity, IntOrString, Time, nil vs empty collections, every optional pointer nil/non-nil, defaulted and undefaulted enums) over the whole modelled schema; per object: conversion round trip, defaulting idempotence, list conversion, Create/Get/Update/UpdateStatus through the real hijack client over simapi; plus the slot-set / pause-flag codecs over all subsets of int32 extremes x annotation maps (nil, empty, others) and 2000 random int32 sets; distinct = distinct generated spec",
 		Assume: []string{"the five apps/v1 fields the Advanced type does not model (derived by reflection at run time and recorded in the evidence) are zeroed before the comparison", "metadata of the object written through the hijack client is limited to name/namespace/labels/annotations (the API server owns the rest)"},
 		Cases:  scenarioCases(8000, 120000), Run: runC19,
-		Floors: []string{"round_trips", "defaulting_idempotence_checks", "hijack_create_get", "hijack_resubmits", "hijack_lists", "hijack_patches", "hijack_applies", "hijack_calls_with_failing_backend", "slot_codec_cases", "objects_with_empty_nonnil_collections"}})
+		Floors: []string{"round_trips", "defaulting_idempotence_checks", "hijack_create_get", "hijack_resubmits", "hijack_lists", "hijack_patches", "hijack_applies", "hijack_apply_status", "hijack_calls_with_failing_backend", "slot_codec_cases", "objects_with_empty_nonnil_collections"}})
 }
